@@ -178,6 +178,7 @@ Ltac np :=
   | |- (match ?c with [] => _ | _ :: _ => _ end) <> Panic _ => destruct c; np
   | |- (match ?c with Some _ => _ | None => _ end) <> Panic _ => destruct c; np
   | |- (match ?c with (_, _) => _ end) <> Panic _ => destruct c; np
+  | |- (match vv ?c with VStr _ => _ | _ => _ end) <> Panic _ => destruct (vv c); np
   | |- of_opt _ <> Panic _ => apply of_opt_np
   | |- str_of _ <> Panic _ => apply of_opt_np
   | |- int_of _ <> Panic _ => apply of_opt_np
